@@ -626,12 +626,16 @@ class C02(core.PropertyCheck):
         logging.disable(logging.CRITICAL)
         n = 30 if tier == "quick" else 300
         viol, seen, tags, built = [], set(), {}, 0
-        for _ in range(n):
-            case = c04gen.gen_project_case(rng)
-            # prebuilt `.ast` pages (hand-made JSON trees, here generated with deliberate type faults for C04) are not rST
-            # sources: outside the quantifier of this property
-            files = {k: v for k, v in case["files"].items() if not k.endswith(".ast")}
-            info = c02disk.add_disk_features(rng, files)
+        directed = c02disk.directed_projects()
+        for it in range(n + len(directed)):
+            if it < len(directed):
+                info, files = {"tags": [directed[it][0] + ":directed"]}, directed[it][1]
+            else:
+                case = c04gen.gen_project_case(rng)
+                # prebuilt `.ast` pages (hand-made JSON trees, here generated with deliberate type faults for C04) are not rST
+                # sources: outside the quantifier of this property
+                files = {k: v for k, v in case["files"].items() if not k.endswith(".ast")}
+                info = c02disk.add_disk_features(rng, files)
             for t in info["tags"]:
                 tags[t] = tags.get(t, 0) + 1
             res = c02disk.build(files)
@@ -640,7 +644,7 @@ class C02(core.PropertyCheck):
                 key = f"build-raised:{res['exc']}@{res['where']}"
                 if key not in seen:
                     seen.add(key)
-                    viol.append({"case": {"kind": "disk", "files": {k: (v if isinstance(v, str) else {"hex": v.hex()}) for k, v in files.items()}, "features": info["tags"]},
+                    viol.append({"case": {"kind": "disk", "files": {k: (v if isinstance(v, (str, dict)) else {"hex": v.hex()}) for k, v in files.items()}, "features": info["tags"]},
                                  "desc": f"Project.build() of a project on disk raised {res['exc']} at {res['where']}: {res['msg']} (features {info['tags']})",
                                  "key": key})
         return viol, {"disk_projects": {"built": built, "features": tags,
